@@ -15,7 +15,7 @@ from fractions import Fraction
 
 import pandas as pd
 
-from .common import Q, close, frac, unq
+from .common import maybe_float, Q, close, frac, unq
 from .sim import BASE, minute  # noqa: F401  (imports demeter from the working tree)
 
 from demeter import MarketInfo, MarketStatus, MarketTypeEnum, TokenInfo, Broker  # noqa: E402
@@ -122,7 +122,7 @@ class Driver:
         op = ev["op"]
 
         def amt(a):
-            return None if a == ALL else dec(Q(a))
+            return None if a == ALL else maybe_float(dec(Q(a)))       # Decimal | float, as the signatures say
         try:
             if op == "supply":
                 m.supply(tok[ev["t"]], amt(ev["a"]), ev["c"])
